@@ -8,6 +8,8 @@
 
 #include <xenium/utils.hpp>
 
+#include <xenium/detail/port.hpp>
+
 #include <atomic>
 #include <cassert>
 #include <cstdint>
@@ -119,6 +121,10 @@ void growing_circular_array<T, MinCapacity, Buckets>::grow(std::size_t bottom, s
 
   // (2) - this release-store synchronizes-with the acquire-load (1)
   _capacity.store(new_capacity, std::memory_order_release);
+  // (3) - this release-fence synchronizes-with the acquire-fence in chase_work_stealing_deque::try_steal.
+  // It ensures that a thread that observes an item stored after the growth (potentially in a slot
+  // that was used for some other item before) also observes the new capacity.
+  XENIUM_THREAD_FENCE(std::memory_order_release);
 }
 } // namespace xenium::detail
 
